@@ -423,10 +423,114 @@ theorem agree_own2 (cfg : Config) (st : State) (ρ : Env) (hρ : Sat ρ (initFml
       exact eval_congr2_term _ _ _ _ h1 T hpl
   b := (agree_own cfg st ρ hρ hc).b
 
+/-- **busy intervals are intervals.** When the declared delays fit the tasks (`State.fitsB`), every busy interval
+    the problem owns starts no later than it ends, in every admitted interpretation -/
+theorem busy_le (cfg : Config) (st : State) (ρ : Env) (hρ : Sat ρ (initFmls cfg st)) (hc : InCoreS st)
+    (hfit : st.fitsB = true) (b : BusyRef) (hb : st.ownsBusy b = true) : b.sV ρ ≤ b.eV ρ := by
+  unfold State.ownsBusy at hb
+  simp only [Bool.and_eq_true] at hb
+  have hown := hb.1
+  simp only [State.ownI] at hown
+  obtain ⟨ev, hev, h1⟩ := List.any_eq_true.1 hown
+  simp only [Bool.and_eq_true] at h1
+  obtain ⟨r, hr, h2⟩ := List.any_eq_true.1 h1.2
+  simp only [Bool.and_eq_true] at h2
+  have e1 : ev.task = b.task := eq_of_beq h1.1
+  have e2 : r.worker = b.worker := eq_of_beq h2.1
+  have e3 : r.maybe = b.maybe := eq_of_beq h2.2
+  obtain ⟨t, ht, hn⟩ := hc.req_tasks ev hev
+  have hev' : ev ∈ st.eventsOf t.name := List.mem_filter.2 ⟨hev, by simp [hn]⟩
+  have hrq : r ∈ st.reqsOf t.name := List.mem_flatMap.2 ⟨ev, hev', hr⟩
+  have hft := (List.all_eq_true.1 hfit) t ht
+  simp only [Bool.and_eq_true, decide_eq_true_eq] at hft
+  have hfr := (List.all_eq_true.1 hft.2) r hrq
+  simp only [Bool.and_eq_true, decide_eq_true_eq, Bool.or_eq_true, Bool.not_eq_true'] at hfr
+  have hspan := C02_busy_span cfg st ρ hρ hc.events t ht ev hev' r hr
+  unfold BusyRef.sV BusyRef.eV
+  rw [← e1, ← e2, ← e3, ← hn]
+  unfold ReqSpanOK at hspan
+  by_cases hs : Scheduled ρ t
+  · have tt := C01_task_timing cfg st ρ hρ t ht hs
+    have hd : t.minDur ≤ t.durV ρ := by
+      have := tt.durOK
+      unfold Task.DurOK at this
+      unfold Task.minDur Task.durV at *
+      cases hk : t.kind with
+      | fixed d => simp [hk] at this ⊢
+      | zero => simp [hk] at this ⊢
+      | var mn mx al => simp only [hk] at this ⊢; exact this.1
+    have hdur := tt.duration
+    cases hsel : r.sel with
+    | some s =>
+        simp only [hsel] at hspan
+        by_cases hbs : ρ.b (.sel s r.worker) = true
+        · have := hspan.1 hbs; omega
+        · have hb' : ρ.b (.sel s r.worker) = false := by cases hh : ρ.b (.sel s r.worker) <;> simp_all
+          have := hspan.2 hb'; omega
+    | none =>
+        simp only [hsel] at hspan
+        by_cases hdy : r.dynamic = true
+        · simp only [hdy, if_true] at hspan; omega
+        · simp only [hdy, Bool.false_eq_true, if_false] at hspan; omega
+  · have hopt : t.optional = true ∧ ρ.b (.sched t.name) = false := by
+      unfold Scheduled at hs
+      cases ho : t.optional <;> cases hbb : ρ.b (.sched t.name) <;> simp_all
+    obtain ⟨p1, p2, _⟩ := C06_parked cfg st ρ hρ t ht hopt.1 hopt.2
+    have hz : r.delayIn ≤ 0 ∧ r.earlyOut ≤ 0 := by
+      rcases hfr.2 with h | h
+      · rw [hopt.1] at h; exact absurd h (by simp)
+      · exact h
+    cases hsel : r.sel with
+    | some s =>
+        simp only [hsel] at hspan
+        by_cases hbs : ρ.b (.sel s r.worker) = true
+        · have := hspan.1 hbs; omega
+        · have hb' : ρ.b (.sel s r.worker) = false := by cases hh : ρ.b (.sel s r.worker) <;> simp_all
+          have := hspan.2 hb'; omega
+    | none =>
+        simp only [hsel] at hspan
+        by_cases hdy : r.dynamic = true
+        · simp only [hdy, if_true] at hspan; omega
+        · simp only [hdy, Bool.false_eq_true, if_false] at hspan; omega
+
+theorem InterruptedExact_congr (ρ ρ' : Env) (s e : Int) (t : Task) (ivs : List (Int × Int))
+    (hd : t.isVar = true → ρ'.i (.tDur t.name) = ρ.i (.tDur t.name)) :
+    InterruptedExact ρ s e t ivs ↔ InterruptedExact ρ' s e t ivs := by
+  unfold InterruptedExact
+  cases hk : t.kind with
+  | var mn mx al =>
+      have : ρ'.i (.tDur t.name) = ρ.i (.tDur t.name) := hd (by simp [Task.isVar, hk])
+      simp only [this]
+  | fixed d => exact Iff.rfl
+  | zero => exact Iff.rfl
+
+theorem PeriodicInterruptedExact_congr (ρ ρ' : Env) (s e : Int) (t : Task) (ivs : List (Int × Int)) (p off : Int)
+    (hd : t.isVar = true → ρ'.i (.tDur t.name) = ρ.i (.tDur t.name)) :
+    PeriodicInterruptedExact ρ s e t ivs p off ↔ PeriodicInterruptedExact ρ' s e t ivs p off := by
+  unfold PeriodicInterruptedExact
+  cases hk : t.kind with
+  | var mn mx al =>
+      have : ρ'.i (.tDur t.name) = ρ.i (.tDur t.name) := hd (by simp [Task.isVar, hk])
+      simp only [this]
+  | fixed d => exact Iff.rfl
+  | zero => exact Iff.rfl
+
 /-- the raw assertions of a constraint of the fragment imply its documented meaning on the schedule read off ρ -/
 theorem core_raw_sound (st : State) (ρ : Env) (hag : Env.AgreeOn2 st.ownI2 ownB ρ (envOf st (schedOf ρ)))
+    (hle : st.fitsB = true → ∀ b : BusyRef, st.ownsBusy b = true → b.sV ρ ≤ b.eV ρ)
     (c : Nat) (b : CBody) (hb : b.inCoreS st c = true)
     (h : Sat ρ (b.raw c)) : CoreMeaning st (schedOf ρ) b := by
+  -- values of an owned busy interval, and of the duration variable of a declared task, under the witness
+  have busyv : ∀ b' : BusyRef, st.ownsBusy b' = true →
+      b'.sV (envOf st (schedOf ρ)) = b'.sV ρ ∧ b'.eV (envOf st (schedOf ρ)) = b'.eV ρ := by
+    intro b' hb'
+    unfold State.ownsBusy at hb'
+    simp only [Bool.and_eq_true] at hb'
+    exact ⟨(hag.i _ (by simp [State.ownI2, hb'.1])).symm, (hag.i _ (by simp [State.ownI2, hb'.2])).symm⟩
+  have durv : ∀ t : Task, st.findTask t.name = some t → t.isVar = true →
+      (envOf st (schedOf ρ)).i (.tDur t.name) = ρ.i (.tDur t.name) := by
+    intro t hf hv
+    exact (hag.i _ (by simp [State.ownI2, State.ownI, hf, hv])).symm
   have conn : ∀ b' : CBody, b'.isConn = true → (b'.raw c).all st.plainF = true → Sat ρ (b'.raw c) →
       ConnMeaning (envOf st (schedOf ρ)) b' := by
     intro b' hc' hp hs
@@ -513,6 +617,80 @@ theorem core_raw_sound (st : State) (ρ : Env) (hag : Env.AgreeOn2 st.ownI2 ownB
     have e2 : b'.eV (envOf st (schedOf ρ)) = b'.eV ρ := (hag.i _ (by simp [State.ownI2, hown.2])).symm
     rw [e1, e2]
     exact hR b' hb' iv hiv
+  case interrupted ws ivs =>
+    simp only [Bool.and_eq_true] at hb
+    obtain ⟨⟨hwf, hfit⟩, hrefs⟩ := hb
+    have hwf' : ∀ iv ∈ ivs, iv.1 < iv.2 := fun iv hiv => by simpa using (List.all_eq_true.1 hwf) iv hiv
+    simp only [ResMeaning] at hR
+    simp only [CoreMeaning]
+    refine ⟨hwf', ?_⟩
+    intro w hw bt hbt
+    have hr := (List.all_eq_true.1 ((List.all_eq_true.1 hrefs) w hw)) bt hbt
+    simp only [Bool.and_eq_true, beq_iff_eq] at hr
+    obtain ⟨e1, e2⟩ := busyv bt.1 hr.1
+    have hse := hle hfit bt.1 hr.1
+    have hok := hR hwf' w hw bt hbt
+    rw [e1, e2]
+    refine ⟨hse, ?_⟩
+    rw [← InterruptedExact_congr ρ _ _ _ bt.2 ivs (durv bt.2 hr.2)]
+    unfold InterruptedOK at hok
+    unfold InterruptedExact
+    cases hk : bt.2.kind with
+    | var mn mx al =>
+        simp only [hk] at hok ⊢
+        exact ⟨hok.1, hok.2.1, hok.2.2 hse⟩
+    | fixed d => simp only [hk] at hok ⊢; exact hok
+    | zero => simp only [hk] at hok ⊢; exact hok
+  case periodicallyUnavailable busy ivs period start offset end_ =>
+    simp only [Bool.and_eq_true] at hb
+    obtain ⟨⟨hwf, hfit⟩, hrefs⟩ := hb
+    have hwf' : ∀ iv ∈ ivs, iv.1 < iv.2 := fun iv hiv => by simpa using (List.all_eq_true.1 hwf) iv hiv
+    simp only [CoreMeaning]
+    refine ⟨hwf', ?_⟩
+    intro b' hb'
+    have hown := (List.all_eq_true.1 hrefs) b' hb'
+    obtain ⟨e1, e2⟩ := busyv b' hown
+    have hse := hle hfit b' hown
+    have hm : PeriodicMasked (envOf st (schedOf ρ)) b' start end_ ↔ PeriodicMasked ρ b' start end_ := by
+      unfold PeriodicMasked; rw [e1, e2]
+    rw [e1, e2]
+    refine ⟨hse, ?_⟩
+    intro iv hiv
+    by_cases hmask : PeriodicMasked ρ b' start end_
+    · exact Or.inl (hm.2 hmask)
+    · exact Or.inr (C04_periodic_own_period c busy ivs period start offset end_ ρ h b' hb' iv hiv hmask)
+  case periodicallyInterrupted busy ivs period start offset end_ =>
+    simp only [Bool.and_eq_true, decide_eq_true_eq] at hb
+    obtain ⟨⟨⟨hp, hwf⟩, hfit⟩, hrefs⟩ := hb
+    have hwf' : ∀ iv ∈ ivs, 0 ≤ iv.1 ∧ iv.1 < iv.2 ∧ iv.2 ≤ period := by
+      intro iv hiv
+      have := (List.all_eq_true.1 hwf) iv hiv
+      simpa [and_assoc] using this
+    simp only [ResMeaning] at hR
+    simp only [CoreMeaning]
+    refine ⟨hp, hwf', ?_⟩
+    intro bt hbt
+    have hr := (List.all_eq_true.1 hrefs) bt hbt
+    simp only [Bool.and_eq_true, beq_iff_eq] at hr
+    obtain ⟨e1, e2⟩ := busyv bt.1 hr.1
+    have hse := hle hfit bt.1 hr.1
+    have hm : PeriodicMasked (envOf st (schedOf ρ)) bt.1 start end_ ↔ PeriodicMasked ρ bt.1 start end_ := by
+      unfold PeriodicMasked; rw [e1, e2]
+    rw [e1, e2]
+    refine ⟨hse, ?_⟩
+    by_cases hmask : PeriodicMasked ρ bt.1 start end_
+    · exact Or.inl (hm.2 hmask)
+    · right
+      have hok := hR hp hwf' bt hbt hmask
+      rw [← PeriodicInterruptedExact_congr ρ _ _ _ bt.2 ivs period offset (durv bt.2 hr.2)]
+      unfold PeriodicInterruptedOK at hok
+      unfold PeriodicInterruptedExact
+      cases hk : bt.2.kind with
+      | var mn mx al =>
+          simp only [hk] at hok ⊢
+          exact ⟨hok.1, (hok.2 hse).1, (hok.2 hse).2⟩
+      | fixed d => simp only [hk] at hok ⊢; exact hok
+      | zero => simp only [hk] at hok ⊢; exact hok
   case indicatorTarget v value =>
     simp only [CoreMeaning]
     have hv : st.ownI2 v = true := by simp only [State.ownI2, hb, Bool.or_true]
@@ -632,7 +810,8 @@ theorem C05_sound_core (cfg : Config) (st : State) (ρ : Env) (hc : InCoreS st)
     intro c hcm hop happ
     obtain ⟨hin, hdir, _⟩ := hc.constrs c hcm hop
     have hS : Sat ρ c.asserts := fun a ha => hρ a (mem_init_constr hcm hop ha)
-    apply core_raw_sound st ρ (agree_own2 cfg st ρ hρ hc) c.id c.body hin
+    apply core_raw_sound st ρ (agree_own2 cfg st ρ hρ hc) (fun hfit b hb => busy_le cfg st ρ hρ hc hfit b hb)
+      c.id c.body hin
     by_cases hopt : c.optional = true
     · exact (C10_optional c hopt (hdir hopt) ρ).1 hS (happ hopt)
     · have hopt' : c.optional = false := by cases hh : c.optional <;> simp_all
@@ -755,5 +934,14 @@ theorem Exact_ex_model : Sat (envOf Exact_exState Exact_exSched) (initFmls {} Ex
 /-- the schedule read off that model is valid — by the theorem, not by inspection -/
 example : Valid Exact_exState (schedOf (envOf Exact_exState Exact_exSched)) :=
   C05_sound_core {} Exact_exState _ Exact_ex_inCoreS Exact_ex_model (by decide +kernel)
+
+
+/-- the problem of `C05_exState2` — the three interruption classes on one worker — is inside the fragment, and the model
+    of its constraint system given there denotes a valid schedule -/
+theorem Exact_ex2_inCoreS : InCoreS C05_exState2 := fragmentB_sound ⟨_, rfl⟩ (by decide +kernel)
+
+example : Valid C05_exState2 (schedOf (envOf C05_exState2 C05_exSched2)) :=
+  C05_sound_core {} C05_exState2 _ Exact_ex2_inCoreS (satB_sound _ _ (by decide +kernel) (by decide +kernel))
+    (by decide +kernel)
 
 end PS
